@@ -2,20 +2,21 @@ package checks
 
 import (
 	"errors"
-	"io"
-	"testing/iotest"
 	"fmt"
+	"io"
 	"math/big"
 	"os"
 	"path/filepath"
 	"reflect"
 	"sort"
 	"strings"
+	"testing/iotest"
 	"time"
 
 	toml "github.com/pelletier/go-toml"
 	"github.com/zmap/zcrypto/x509"
 	"github.com/zmap/zlint/v3/lint"
+	"golang.org/x/crypto/ocsp"
 
 	"verif/corpus"
 	"verif/gen"
@@ -831,6 +832,146 @@ func c11HigherScoped(c *mon.Ctx) {
 func c11Solo(c *mon.Ctx) {
 	c11Scenarios(c)
 	c11HigherScoped(c)
+	c11LateConfigurable(c)
+}
+
+// ---- configurable lints registered AFTER the example configuration was first asked for ----
+//
+// "has a section for every configurable lint" is a statement about the registry as it is when the example is
+// generated. The example was generated several times above; now configurable lints of every kind are registered one at
+// a time - under sources their kind already has lints for, under sources new to the kind, with names sorting first and
+// last - and after each registration the example must be valid TOML, have a table for every configurable lint known so
+// far (shipped ones, the higher-scoped probes, every late one), load without changing a verdict, and the new lint's
+// option must take effect when set.
+
+type c11LateCfg struct{ Limit int }
+
+type c11LateCert struct{ c11LateCfg }
+
+func (l *c11LateCert) Configure() interface{}              { return &l.c11LateCfg }
+func (l *c11LateCert) CheckApplies(*x509.Certificate) bool { return true }
+func (l *c11LateCert) Execute(*x509.Certificate) *lint.LintResult {
+	return &lint.LintResult{Status: lint.Notice, Details: fmt.Sprintf("Limit=%d", l.Limit)}
+}
+
+type c11LateCRL struct{ c11LateCfg }
+
+func (l *c11LateCRL) Configure() interface{}                 { return &l.c11LateCfg }
+func (l *c11LateCRL) CheckApplies(*x509.RevocationList) bool { return true }
+func (l *c11LateCRL) Execute(*x509.RevocationList) *lint.LintResult {
+	return &lint.LintResult{Status: lint.Notice, Details: fmt.Sprintf("Limit=%d", l.Limit)}
+}
+
+type c11LateOCSP struct{ c11LateCfg }
+
+func (l *c11LateOCSP) Configure() interface{}           { return &l.c11LateCfg }
+func (l *c11LateOCSP) CheckApplies(*ocsp.Response) bool { return true }
+func (l *c11LateOCSP) Execute(*ocsp.Response) *lint.LintResult {
+	return &lint.LintResult{Status: lint.Notice, Details: fmt.Sprintf("Limit=%d", l.Limit)}
+}
+
+func c11LateConfigurable(c *mon.Ctx) {
+	g := lint.GlobalRegistry()
+	g.SetConfiguration(lint.NewEmptyConfig())
+	_, _ = g.DefaultConfiguration()
+	// a source the kind already has lints for, and whose lints are not subject to a scope gate (the CA/B Forum
+	// documents): the probe has to RUN on the object it is shown
+	srcOf := func(k corpus.Kind) lint.LintSource {
+		for _, li := range Inv {
+			if li.Kind == k && (li.Meta.Source == lint.RFC5280 || li.Meta.Source == lint.RFC6960) {
+				return li.Meta.Source
+			}
+		}
+		return lint.Community
+	}
+	objOf := map[corpus.Kind]*mon.Obj{}
+	for _, k := range []corpus.Kind{corpus.Cert, corpus.CRL, corpus.OCSP} {
+		if idx := W.ByKind[k]; len(idx) > 0 {
+			objOf[k] = W.Objs[idx[0]]
+		}
+	}
+	type step struct {
+		name string
+		kind corpus.Kind
+		src  lint.LintSource
+	}
+	steps := []step{
+		{"n_verif_c11_late_ocsp_a", corpus.OCSP, srcOf(corpus.OCSP)},
+		{"n_verif_c11_late_crl_a", corpus.CRL, srcOf(corpus.CRL)},
+		{"n_verif_c11_late_cert_a", corpus.Cert, srcOf(corpus.Cert)},
+		{"n_verif_c11_late_ocsp_b", corpus.OCSP, srcOf(corpus.OCSP)},
+		{"n_verif_c11_late_ocsp_c", corpus.OCSP, lint.Community},
+		{"e_000_verif_c11_late_cert_first", corpus.Cert, lint.RFC8813},
+		{"w_zzz_verif_c11_late_crl_last", corpus.CRL, lint.RFC8813},
+		{"n_verif_c11_late_ocsp_d", corpus.OCSP, lint.Community},
+	}
+	known := []string{"n_verif_c11_hs_cert", "n_verif_c11_hs_crl"}
+	for _, cl := range c11Lints {
+		known = append(known, cl.info.Name)
+	}
+	for si, st := range steps {
+		m := lint.LintMetadata{Name: st.name, Description: "verif late configurable lint", Citation: "verif", Source: st.src}
+		switch st.kind {
+		case corpus.Cert:
+			lint.RegisterCertificateLint(&lint.CertificateLint{LintMetadata: m, Lint: func() lint.CertificateLintInterface { return &c11LateCert{c11LateCfg{Limit: 10}} }})
+		case corpus.CRL:
+			lint.RegisterRevocationListLint(&lint.RevocationListLint{LintMetadata: m, Lint: func() lint.RevocationListLintInterface { return &c11LateCRL{c11LateCfg{Limit: 10}} }})
+		default:
+			lint.RegisterOcspResponseLint(&lint.OcspResponseLint{LintMetadata: m, Lint: func() lint.OcspResponseLintInterface { return &c11LateOCSP{c11LateCfg{Limit: 10}} }})
+		}
+		known = append(known, st.name)
+		when := fmt.Sprintf("after %d late registrations (last: %s lint %s, source %s)", si+1, st.kind, st.name, st.src)
+		c.R.Count("late_configurable_steps", 1)
+		def, err := g.DefaultConfiguration()
+		if err != nil {
+			c.V("default-config-error", "DefaultConfiguration failed "+when+": "+err.Error(), "", nil, nil)
+			continue
+		}
+		tree, err := toml.Load(string(def))
+		if err != nil {
+			c.V("default-config-not-toml", "the example configuration is not valid TOML "+when+": "+err.Error(), "", map[string][]byte{"example.toml": def}, nil)
+			continue
+		}
+		for _, n := range known {
+			c.R.Count("evaluations", 1)
+			if _, ok := tree.Get(n).(*toml.Tree); !ok {
+				c.V("default-config-missing-section|late|"+st.kind.String(), fmt.Sprintf("%s the example configuration has no table for the configurable lint %s", when, n), n, map[string][]byte{"example.toml": def}, nil)
+			}
+		}
+		// a registry filtered to the new lint
+		if r, err := g.Filter(lint.FilterOptions{IncludeNames: []string{st.name}}); err == nil {
+			b, err := r.DefaultConfiguration()
+			t2, err2 := toml.Load(string(b))
+			if err != nil || err2 != nil {
+				c.V("default-config-filtered", fmt.Sprintf("example configuration of the registry filtered to %s is unusable: %v %v", st.name, err, err2), st.name, nil, nil)
+			} else if _, ok := t2.Get(st.name).(*toml.Tree); !ok {
+				c.V("default-config-filtered-missing|late|"+st.kind.String(), "the registry filtered to the late lint "+st.name+" gives an example configuration without its table", st.name, nil, nil)
+			}
+		}
+		// loading the example changes nothing; setting the option changes this lint
+		o := objOf[st.kind]
+		if o == nil {
+			continue
+		}
+		for _, d := range []struct{ doc, want string }{{"", "Limit=10"}, {string(def), "Limit=10"}, {"[" + st.name + "]\nLimit = 3\n", "Limit=3"}, {"", "Limit=10"}} {
+			cfg, err := lint.NewConfigFromString(d.doc)
+			if err != nil {
+				c.V("default-config-not-loadable", when+": the library cannot load a document: "+err.Error(), "", nil, nil)
+				continue
+			}
+			g.SetConfiguration(cfg)
+			rs, pv, _ := o.Lint(g)
+			c.R.Count("evaluations", 1)
+			if pv != nil || rs == nil || rs.Results[st.name] == nil {
+				c.V("late-lint-not-run|"+st.kind.String(), when+": the late lint produced no result", st.name, nil, nil)
+				continue
+			}
+			if r := rs.Results[st.name]; r.Status != lint.Notice || r.Details != d.want {
+				c.V("configured-result|late|"+st.kind.String(), fmt.Sprintf("%s: %s reports %s %q, want info %q", when, st.name, r.Status, r.Details, d.want), st.name, nil, nil)
+			}
+		}
+		g.SetConfiguration(lint.NewEmptyConfig())
+	}
 }
 
 func c11Scenarios(c *mon.Ctx) {
